@@ -97,7 +97,7 @@ def generate(prop, seed, tier):
             ops.append(op)
         elif kind == "plot2d":
             c = _gen_contour(S)
-            ops.append({"op": "plot2d", "contour": c, "sample": S.chance(0.5), "dc": S.wpick([(None, 3), (True, 2), ("array", 2), (False, 0.5)]), "swap": S.chance(0.4), "ax": S.wpick([("new", 3), ("reuse", 2)]), "semantics": _gen_semantics(S, 2), "sseed": S.sub("ps", k)})
+            ops.append({"op": "plot2d", "contour": c, "sample": S.chance(0.5), "dc": S.wpick([(None, 3), (True, 2), ("array", 2), (False, 0.5)]), "swap": S.chance(0.4), "ax": S.wpick([("new", 3), ("reuse", 2)]), "semantics": _gen_semantics(S, 2), "sseed": S.sub("ps", k), "dc_container": S.pick(["ndarray", "ndarray", "list", "tuple", "dataframe"]), "sample_container": S.pick(["ndarray", "ndarray", "list"])})
         else:
             need_fitted = True
             ops.append({"op": kind, "swap": S.chance(0.4), "ax": "new", "semantics": _gen_semantics(S, 2) if S.chance(0.5) else None, "levels": S.pick([None, [0.001, 0.01, 0.1]]), "n_grid": S.pick([120, 250])})
@@ -424,6 +424,16 @@ def do_plot2d(run, scen, op, si, model2, state):
     if dc == "array":
         dc_arg = np.random.default_rng(op["sseed"] + 1).uniform(1.0, 9.0, size=(6, 2))
         dc_expect = dc_arg.copy()
+        # the docstring says array-like: ndarray, list of lists, tuple of tuples, DataFrame
+        cont = op.get("dc_container", "ndarray")
+        if cont == "list":
+            dc_arg = dc_arg.tolist()
+        elif cont == "tuple":
+            dc_arg = tuple(tuple(r) for r in dc_arg.tolist())
+        elif cont == "dataframe":
+            import pandas as pd
+
+            dc_arg = pd.DataFrame(dc_arg, columns=["x", "y"])
     elif dc is True:
         try:
             dc_expect = np.asarray(calculate_design_conditions(contour, swap_axis=op["swap"]), dtype=float)
@@ -443,14 +453,15 @@ def do_plot2d(run, scen, op, si, model2, state):
     before = _artists(ax_in) if ax_in is not None else ([], [], [], [])
     figs_before = set(plt.get_fignums())
     sample_copy = None if sample is None else sample.copy()
+    sample_arg = sample.tolist() if (sample is not None and op.get("sample_container") == "list") else sample
     exc = None
     try:
-        ret = plot_2D_contour(contour, sample=sample, design_conditions=dc_arg, semantics=copy.deepcopy(op["semantics"]), swap_axis=op["swap"], ax=ax_in)
+        ret = plot_2D_contour(contour, sample=sample_arg, design_conditions=dc_arg, semantics=copy.deepcopy(op["semantics"]), swap_axis=op["swap"], ax=ax_in)
     except Exception as e:  # noqa: BLE001
         exc = e
     run.event("plot2d", [site, op["sample"], str(op["dc"]), op["swap"], op["ax"]], [type(exc).__name__ if exc else None])
     if exc is not None:
-        run.violate("plot2d-raises", ("OrContour" if site == "Or" else f"design_conditions={op['dc']}") + f"/{type(exc).__name__}", {"exc": repr(exc)[:300], "op": {k: op[k] for k in ("sample", "dc", "swap", "ax")}, "step": si})
+        run.violate("plot2d-raises", ("OrContour" if site == "Or" else f"design_conditions={op['dc']}") + f"/{type(exc).__name__}", {"exc": repr(exc)[:300], "op": {k: op.get(k) for k in ("sample", "dc", "swap", "ax", "dc_container", "sample_container")}, "step": si})
         return
     ax = ret[0] if isinstance(ret, tuple) else ret
     if ax_in is not None and ax is not ax_in:
@@ -715,7 +726,7 @@ def execute(prop, scen):
     import matplotlib.pyplot as plt
 
     run = core.Run(prop, scen)
-    run.signature = core.digest([[(o["op"], (o.get("contour") or {}).get("kind"), (o.get("contour") or {}).get("dim"), (o.get("fault") or {}).get("kind"), o.get("dc") if o["op"] == "plot2d" else None, o.get("swap"), o.get("ax"), os.path.splitext(o.get("path", "x.y"))[1] == "") for o in scen["ops"]]])
+    run.signature = core.digest([[(o["op"], (o.get("contour") or {}).get("kind"), (o.get("contour") or {}).get("dim"), (o.get("fault") or {}).get("kind"), (o.get("dc"), o.get("dc_container")) if o["op"] == "plot2d" else None, o.get("swap"), o.get("ax"), os.path.splitext(o.get("path", "x.y"))[1] == "") for o in scen["ops"]]])
     root = tempfile.mkdtemp(prefix="verif-io-")
     state = {}
     try:
